@@ -20,7 +20,7 @@ namespace CE.Rules
 def covers (s : RState) (x : Bytes) : Prop := x ∈ s.marked.map (·.1) ∨ x ∈ s.forward.map (·.1)
 
 /-- the marker bookkeeping of two states is the same -/
-def SameRefs (s s' : RState) : Prop := s'.marked = s.marked ∧ s'.forward = s.forward
+def SameRefs (s s' : RState) : Prop := s'.marked = s.marked ∧ s'.forward = s.forward ∧ s'.objectCount = s.objectCount
 
 def Step.state : Step → RState
   | .next s _ => s | .ret s => s | .call s _ _ _ _ => s
@@ -90,12 +90,12 @@ end CE.Rules
 namespace CE.Rules
 
 theorem sameRefs_covers {s s' : RState} (h : SameRefs s s') : ∀ x, covers s x → covers s' x := by
-  intro x hx; unfold covers at *; rw [h.1, h.2]; exact hx
+  intro x hx; unfold covers at *; rw [h.1, h.2.1]; exact hx
 
 theorem unstackRule_same (s s' : RState) (h : unstackRule s = .ok s') : SameRefs s s' := by
   unfold unstackRule at h; split at h
   · cases h
-  · injection h with h; subst h; exact ⟨rfl, rfl⟩
+  · injection h with h; subst h; exact ⟨rfl, rfl, rfl⟩
 
 theorem beginContainer_same (cfg : Cfg) (s s' : RState) (r : Rule) (dt : DT) (e : Option Nat)
     (h : beginContainer cfg s r dt e = .ok s') : SameRefs s s' := by
@@ -103,18 +103,18 @@ theorem beginContainer_same (cfg : Cfg) (s s' : RState) (r : Rule) (dt : DT) (e 
   simp only [bind, Except.bind, pure, Except.pure] at h
   split at h
   · cases h
-  · injection h with h; subst h; exact ⟨rfl, rfl⟩
+  · injection h with h; subst h; exact ⟨rfl, rfl, rfl⟩
 
 theorem notifyKey_same (s s' : RState) (k : NormKey) (h : notifyKey s k = .ok s') : SameRefs s s' := by
   unfold notifyKey at h; split at h
   · cases h
-  · injection h with h; subst h; exact ⟨rfl, rfl⟩
+  · injection h with h; subst h; exact ⟨rfl, rfl, rfl⟩
 
 theorem beginArrayAny_same (cfg : Cfg) (s s' : RState) (t : ArrT) (h : beginArrayAny cfg s t = .ok s') : SameRefs s s' := by
   unfold beginArrayAny at h
   split at h
   · cases h
-  · split at h <;> (injection h with h; subst h; exact ⟨rfl, rfl⟩)
+  · split at h <;> (injection h with h; subst h; exact ⟨rfl, rfl, rfl⟩)
 
 theorem leaveArray_same (s : RState) (args : Args) (b : Bool) (st : Step) (h : leaveArray s args b = .ok st) :
     SameRefs s st.state := by
@@ -130,19 +130,19 @@ theorem leaveArray_same (s : RState) (args : Args) (b : Bool) (st : Step) (h : l
 end CE.Rules
 namespace CE.Rules
 
-theorem same_refl (s : RState) : SameRefs s s := ⟨rfl, rfl⟩
+theorem same_refl (s : RState) : SameRefs s s := ⟨rfl, rfl, rfl⟩
 
 theorem same_trans {a b c : RState} (h1 : SameRefs a b) (h2 : SameRefs b c) : SameRefs a c :=
-  ⟨h2.1.trans h1.1, h2.2.trans h1.2⟩
+  ⟨h2.1.trans h1.1, h2.2.1.trans h1.2.1, h2.2.2.trans h1.2.2⟩
 
 theorem ite_ok_same (s v : RState) (c : Prop) [Decidable c] (e : RErr) (rts : List (Bytes × Nat))
     (h : (if c then (Except.error e : M RState) else Except.ok { s with recordTypes := rts }) = Except.ok v) : SameRefs s v := by
   split at h
   · cases h
-  · injection h with h; subst h; exact ⟨rfl, rfl⟩
+  · injection h with h; subst h; exact ⟨rfl, rfl, rfl⟩
 
 theorem unstack_depth_same (a b : RState) (d : Nat) (h : unstackRule { a with depth := d } = .ok b) : SameRefs a b :=
-  same_trans (⟨rfl, rfl⟩ : SameRefs a { a with depth := d }) (unstackRule_same _ _ h)
+  same_trans (⟨rfl, rfl, rfl⟩ : SameRefs a { a with depth := d }) (unstackRule_same _ _ h)
 
 /-- every statement of a rule method leaves the marker bookkeeping alone, except the two that are
     there to change it: registering a marker and recording a reference -/
@@ -171,7 +171,7 @@ theorem execAct_kinds (cfg : Cfg) (a : Act) (s : RState) (args : Args) (st : Ste
   all_goals left
   case wrongType => simp [execAct] at h
   case unknown => simp [execAct] at h
-  case changeRule r => simp only [execAct] at h; injection h with h; subst h; exact ⟨rfl, rfl⟩
+  case changeRule r => simp only [execAct] at h; injection h with h; subst h; exact ⟨rfl, rfl, rfl⟩
   case beginList =>
     simp only [execAct, bind, Except.bind, pure, Except.pure] at h
     split at h
@@ -201,7 +201,7 @@ theorem execAct_kinds (cfg : Cfg) (a : Act) (s : RState) (args : Args) (st : Ste
     split at h
     · cases h
     · rename_i v hv; injection h with h; subst h
-      exact same_trans (beginContainer_same _ _ _ _ _ _ hv) ⟨rfl, rfl⟩
+      exact same_trans (beginContainer_same _ _ _ _ _ _ hv) ⟨rfl, rfl, rfl⟩
   case beginRecord =>
     simp only [execAct, actBeginRecord, bind, Except.bind, pure, Except.pure] at h
     split at h
@@ -213,26 +213,26 @@ theorem execAct_kinds (cfg : Cfg) (a : Act) (s : RState) (args : Args) (st : Ste
     simp only [execAct] at h
     split at h
     · cases h
-    · injection h with h; subst h; exact ⟨rfl, rfl⟩
+    · injection h with h; subst h; exact ⟨rfl, rfl, rfl⟩
   case checkVersion =>
     simp only [execAct] at h
     split at h
     · cases h
-    · injection h with h; subst h; exact ⟨rfl, rfl⟩
+    · injection h with h; subst h; exact ⟨rfl, rfl, rfl⟩
   case notifyKey =>
     simp only [execAct, actNotifyKey, bind, Except.bind, pure, Except.pure] at h
     split at h
     · split at h
       · cases h
       · rename_i v hv; injection h with h; subst h; exact notifyKey_same _ _ _ hv
-    · injection h with h; subst h; exact ⟨rfl, rfl⟩
+    · injection h with h; subst h; exact ⟨rfl, rfl, rfl⟩
   case notifyKeyOfArray =>
     simp only [execAct, actNotifyKeyOfArray, bind, Except.bind, pure, Except.pure] at h
     split at h
     · split at h
       · cases h
       · rename_i v hv; injection h with h; subst h; exact notifyKey_same _ _ _ hv
-    · injection h with h; subst h; exact ⟨rfl, rfl⟩
+    · injection h with h; subst h; exact ⟨rfl, rfl, rfl⟩
   case notifyKeyOfBuilt =>
     simp only [execAct, actNotifyKeyOfBuilt, bind, Except.bind, pure, Except.pure] at h
     split at h
@@ -243,36 +243,36 @@ theorem execAct_kinds (cfg : Cfg) (a : Act) (s : RState) (args : Args) (st : Ste
       · split at h
         · cases h
         · rename_i v hv; injection h with h; subst h; exact notifyKey_same _ _ _ hv
-      · injection h with h; subst h; exact ⟨rfl, rfl⟩
+      · injection h with h; subst h; exact ⟨rfl, rfl, rfl⟩
   case beginMarkerKeyable m =>
-    simp only [execAct, actBeginMarkerKeyable] at h; injection h with h; subst h; exact ⟨rfl, rfl⟩
+    simp only [execAct, actBeginMarkerKeyable] at h; injection h with h; subst h; exact ⟨rfl, rfl, rfl⟩
   case beginMarkerAny m =>
-    simp only [execAct, actBeginMarkerAny] at h; injection h with h; subst h; exact ⟨rfl, rfl⟩
+    simp only [execAct, actBeginMarkerAny] at h; injection h with h; subst h; exact ⟨rfl, rfl, rfl⟩
   case unstack =>
     simp only [execAct, bind, Except.bind, pure, Except.pure] at h
     split at h
     · cases h
     · rename_i v hv; injection h with h; subst h; exact unstackRule_same _ _ hv
-  case redispatch m ek => simp only [execAct] at h; injection h with h; subst h; exact ⟨rfl, rfl⟩
-  case restoreMarkerID => simp only [execAct] at h; injection h with h; subst h; exact ⟨rfl, rfl⟩
-  case addFirst => simp only [execAct] at h; injection h with h; subst h; exact ⟨rfl, rfl⟩
-  case addNext => simp only [execAct] at h; injection h with h; subst h; exact ⟨rfl, rfl⟩
-  case addBuiltData => simp only [execAct] at h; injection h with h; subst h; exact ⟨rfl, rfl⟩
+  case redispatch m ek => simp only [execAct] at h; injection h with h; subst h; exact ⟨rfl, rfl, rfl⟩
+  case restoreMarkerID => simp only [execAct] at h; injection h with h; subst h; exact ⟨rfl, rfl, rfl⟩
+  case addFirst => simp only [execAct] at h; injection h with h; subst h; exact ⟨rfl, rfl, rfl⟩
+  case addNext => simp only [execAct] at h; injection h with h; subst h; exact ⟨rfl, rfl, rfl⟩
+  case addBuiltData => simp only [execAct] at h; injection h with h; subst h; exact ⟨rfl, rfl, rfl⟩
   case parentDispatch m =>
     simp only [execAct, actParentDispatch, bind, Except.bind, pure, Except.pure] at h
     split at h
     · cases h
-    · injection h with h; subst h; exact ⟨rfl, rfl⟩
+    · injection h with h; subst h; exact ⟨rfl, rfl, rfl⟩
   case lookupArrayDataType =>
     simp only [execAct, actLookupArrayDataType] at h
     split at h
     · cases h
-    · injection h with h; subst h; exact ⟨rfl, rfl⟩
+    · injection h with h; subst h; exact ⟨rfl, rfl, rfl⟩
   case markCompletedChunk =>
     simp only [execAct, actMarkCompletedChunk] at h
     split at h
     · cases h
-    · injection h with h; subst h; exact ⟨rfl, rfl⟩
+    · injection h with h; subst h; exact ⟨rfl, rfl, rfl⟩
   case beginArrayAny =>
     simp only [execAct, bind, Except.bind, pure, Except.pure] at h
     split at h
@@ -282,31 +282,31 @@ theorem execAct_kinds (cfg : Cfg) (a : Act) (s : RState) (args : Args) (st : Ste
     simp only [execAct, bind, Except.bind, pure, Except.pure] at h
     split at h
     · cases h
-    · injection h with h; subst h; exact ⟨rfl, rfl⟩
+    · injection h with h; subst h; exact ⟨rfl, rfl, rfl⟩
   case validateFullStringlike =>
     simp only [execAct, bind, Except.bind, pure, Except.pure] at h
     split at h
     · cases h
-    · injection h with h; subst h; exact ⟨rfl, rfl⟩
+    · injection h with h; subst h; exact ⟨rfl, rfl, rfl⟩
   case assertArrayType m =>
     simp only [execAct, bind, Except.bind, pure, Except.pure] at h
     split at h
     · cases h
-    · injection h with h; subst h; exact ⟨rfl, rfl⟩
+    · injection h with h; subst h; exact ⟨rfl, rfl, rfl⟩
   case validateFullKeyable =>
     simp only [execAct, actValidateFullKeyable, bind, Except.bind, pure, Except.pure] at h
     split at h
     · cases h
     · split at h
       · cases h
-      · injection h with h; subst h; exact ⟨rfl, rfl⟩
+      · injection h with h; subst h; exact ⟨rfl, rfl, rfl⟩
   case validateFullStringlikeKeyable =>
     simp only [execAct, actValidateFullStringlikeKeyable, bind, Except.bind, pure, Except.pure] at h
     split at h
     · cases h
     · split at h
       · cases h
-      · injection h with h; subst h; exact ⟨rfl, rfl⟩
+      · injection h with h; subst h; exact ⟨rfl, rfl, rfl⟩
   case beginArrayKeyable =>
     simp only [execAct, actBeginArrayKeyable, bind, Except.bind, pure, Except.pure] at h
     split at h
@@ -318,39 +318,39 @@ theorem execAct_kinds (cfg : Cfg) (a : Act) (s : RState) (args : Args) (st : Ste
     simp only [execAct, bind, Except.bind, pure, Except.pure] at h
     split at h
     · cases h
-    · injection h with h; subst h; exact ⟨rfl, rfl⟩
+    · injection h with h; subst h; exact ⟨rfl, rfl, rfl⟩
   case validateNext =>
     simp only [execAct, bind, Except.bind, pure, Except.pure] at h
     split at h
     · cases h
-    · injection h with h; subst h; exact ⟨rfl, rfl⟩
+    · injection h with h; subst h; exact ⟨rfl, rfl, rfl⟩
   case zeroChunkReturn =>
     simp only [execAct, actZeroChunkReturn] at h
     split at h
     · split at h
-      · injection h with h; subst h; exact ⟨rfl, rfl⟩
+      · injection h with h; subst h; exact ⟨rfl, rfl, rfl⟩
       · exact leaveArray_same _ _ _ _ h
-    · injection h with h; subst h; exact ⟨rfl, rfl⟩
+    · injection h with h; subst h; exact ⟨rfl, rfl, rfl⟩
   case beginChunk k =>
     simp only [execAct, actBeginChunk] at h
     split at h
     · cases h
     · split at h
-      · injection h with h; subst h; exact ⟨rfl, rfl⟩
+      · injection h with h; subst h; exact ⟨rfl, rfl, rfl⟩
       · cases h
   case endChunkIfComplete k =>
     simp only [execAct, actEndChunkIfComplete] at h
     split at h
     · split at h
       · split at h
-        · injection h with h; subst h; exact ⟨rfl, rfl⟩
+        · injection h with h; subst h; exact ⟨rfl, rfl, rfl⟩
         · exact leaveArray_same _ _ _ _ h
       · split at h
         · cases h
         · split at h
-          · injection h with h; subst h; exact ⟨rfl, rfl⟩
+          · injection h with h; subst h; exact ⟨rfl, rfl, rfl⟩
           · exact leaveArray_same _ _ _ _ h
-    · injection h with h; subst h; exact ⟨rfl, rfl⟩
+    · injection h with h; subst h; exact ⟨rfl, rfl, rfl⟩
   case streamStringData =>
     simp only [execAct, actStreamStringData, bind, Except.bind, pure, Except.pure, streamStringData_eq] at h
     split at h
@@ -363,7 +363,7 @@ theorem execAct_kinds (cfg : Cfg) (a : Act) (s : RState) (args : Args) (st : Ste
         obtain ⟨r, f, n⟩ := rfn
         simp only [hr] at hv
         injection hv with hv; subst hv
-        exact ⟨rfl, rfl⟩
+        exact ⟨rfl, rfl, rfl⟩
   case endContainer notify =>
     simp only [execAct, actEndContainer, bind, Except.bind, pure, Except.pure, throw, throwThe, MonadExceptOf.throw] at h
     repeat' (split at h)
@@ -427,7 +427,8 @@ theorem call_covers (tbl : RuleTable) (cfg : Cfg) (s : RState) (m : Method) (arg
     (h : call tbl cfg s m args = .ok s') : ∀ x, covers s x → covers s' x :=
   runActs_covers tbl cfg _ _ s args s' h
 
-theorem nno_same (cfg : Cfg) (s s' : RState) (b : Bool) (h : notifyNewObject cfg s b = .ok s') : SameRefs s s' := by
+theorem nno_same (cfg : Cfg) (s s' : RState) (b : Bool) (h : notifyNewObject cfg s b = .ok s') :
+    s'.marked = s.marked ∧ s'.forward = s.forward := by
   unfold notifyNewObject at h
   simp only [bind, Except.bind, pure, Except.pure, throw, throwThe, MonadExceptOf.throw] at h
   repeat' (split at h)
@@ -442,7 +443,9 @@ def CovMono (s s' : RState) : Prop := ∀ x, covers s x → covers s' x
 
 theorem covMono_nno_call (tbl : RuleTable) (cfg : Cfg) (s s1 s2 : RState) (b : Bool) (m : Method) (args : Args)
     (h1 : notifyNewObject cfg s b = .ok s1) (h2 : call tbl cfg s1 m args = .ok s2) : CovMono s s2 :=
-  fun x hx => call_covers tbl cfg s1 m args s2 h2 x (sameRefs_covers (nno_same cfg s s1 b h1) x hx)
+  fun x hx => call_covers tbl cfg s1 m args s2 h2 x (by
+    have hn := nno_same cfg s s1 b h1
+    unfold covers at *; rw [hn.1, hn.2]; exact hx)
 
 theorem covMono_call (tbl : RuleTable) (cfg : Cfg) (s s2 : RState) (m : Method) (args : Args)
     (h2 : call tbl cfg s m args = .ok s2) : CovMono s s2 :=
